@@ -22,6 +22,16 @@
    counter threaded through the state, IN THE ORDER the implementation draws.  Every LOGGER.critical (the CLI
    stops) and every uncaught exception is `Err _`; LOGGER.error / warn do not stop.
 
+   How a row is READ follows the tree (Gen/Tables.v: behavioural probes of translator/tables_flowread.py,
+   tables_c04.py, tables_c01.py; tables_c01.py checks the first two for every row type the model applies them to):
+   padding_edges_dropped_at_read   - FlowParser._parse_next_row drops trivial edges other than the first for every
+                                     row type (before the repair a05766f only rows that create a node omitted them);
+   has_group_edges_by_name         - RowNodeGroup.add_exit compiles a has_group condition of a row that is not a
+                                     split_by_group row with the arguments [None, value] (before f02a865: [value]);
+   has_group_by_name_from_noop     - the same for NoOpNodeGroup.add_exit.
+   SwitchRouter.record_global_uuids (container validation, after every flow is compiled) reads arguments[1] of every
+   has_group case: a case with fewer arguments is an IndexError.
+
    Loops, templating, include_if, insert_as_block: not here (they are eliminated before: Comp/Blocks.v,
    Tmpl/RowLoop.v).  Actions are opaque canonical payloads (their construction is not modelled).
    Group/flow uuids written by update_global_uuids (has_group argument 0) are not modelled: the argument stays
@@ -49,6 +59,14 @@ Record crow := mkCRow {
   cr_row : row;            (* the RowSem row: type, row_id, node name (= _nodeId or node_name), edges *)
   cr_kind : nkind;         (* read for TNode rows only *)
   cr_uuid : str }.         (* the given `_nodeId` ("" = none) *)
+
+(* FlowParser._parse_next_row: `row.edges = [edge for i, edge in enumerate(row.edges) if edge != Edge() or i == 0]`
+   since the repair; the rows as parsed before it *)
+Definition read_edges (es : list redge) : list redge :=
+  if padding_edges_dropped_at_read then drop_padding es else es.
+Definition cread_row (cr : crow) : crow :=
+  mkCRow (mkRow (r_type (cr_row cr)) (r_id (cr_row cr)) (r_node_name (cr_row cr)) (read_edges (r_edges (cr_row cr))))
+         (cr_kind cr) (cr_uuid cr).
 
 (* ---------------------------------------------------------------- objects *)
 Definition dst := option id.                (* destination_uuid: None, Some "HARD_EXIT", Some <node uuid> *)
@@ -490,6 +508,12 @@ Fixpoint cconnect_loose (fuel : nat) (s : cstate) (g : nat) (d : dst) : res csta
 (* the edge a SwitchRouter receives: (variable, test type, arguments) *)
 Definition or_default (s dflt : str) : str := match s with [] => dflt | _ => s end.
 
+(* comparison_arguments of an edge leaving a row that is not a split_by_group row / leaving a no_op decision *)
+Definition by_name_args (flag : bool) (c : econd) : list (option str) :=
+  if flag && str_eqb (c_type c) has_group_s then [None; Some (c_value c)] else [Some (c_value c)].
+Definition row_args (c : econd) : list (option str) := by_name_args has_group_edges_by_name c.
+Definition noop_args (c : econd) : list (option str) := by_name_args has_group_by_name_from_noop c.
+
 (* BaseNode/RouterNode.update_default_exit on the node nd *)
 Definition node_update_default (n : nat) (nd : cnode) (d : dst) : res (cnode * nat) :=
   match cn_body nd with
@@ -542,7 +566,7 @@ Definition row_add_exit (s : cstate) (g k1 : nat) (k2 : list nat) (rt : rowtype)
                         | _ => sw_operand r
                         end in
         let ty := match rt with RTSplitGroup => has_group_s | _ => or_default (c_type c) s_has_any_word end in
-        let args := match rt with RTSplitGroup => [None; Some (c_value c)] | _ => [Some (c_value c)] end in
+        let args := match rt with RTSplitGroup => [None; Some (c_value c)] | _ => row_args c end in
         match sw_add_choice n r variable ty args (c_cname c) d false with
         | Err e => Err e
         | Ok (r', n1) => Ok (set_node s k (with_body nd (BSwitch SPlain r')) n1)
@@ -563,7 +587,7 @@ Definition row_add_exit (s : cstate) (g k1 : nat) (k2 : list nat) (rt : rowtype)
         | Ok (u, gv, r0, n1) =>
           let r1 := sw_update_default r0 (x_dest e) [] in
           let (e', n2) := new_exit n1 (Some u) in
-          match sw_add_choice n2 r1 variable (or_default (c_type c) s_has_any_word) [Some (c_value c)] (c_cname c) d false with
+          match sw_add_choice n2 r1 variable (or_default (c_type c) s_has_any_word) (row_args c) (c_cname c) d false with
           | Err e'' => Err e''
           | Ok (r2, n3) =>
             let k' := length (cs_nodes s) in
@@ -586,7 +610,7 @@ Definition noop_router_edge (s : cstate) (k : nat) (d : dst) (c : econd) : res c
       if negb (nonempty (c_value c)) && negb (memb (c_type c) no_args_tests)
       then Ok (set_node s k (with_body nd (BSwitch cls (sw_update_default r d []))) (cs_next s))
       else match sw_add_choice (cs_next s) r (c_variable c) (or_default (c_type c) s_has_any_word)
-                               [Some (c_value c)] (c_cname c) d false with
+                               (noop_args c) (c_cname c) d false with
            | Err e => Err e
            | Ok (r', n1) => Ok (set_node s k (with_body nd (BSwitch cls r')) n1)
            end
@@ -683,7 +707,8 @@ Definition sentinel_dst : dst := Some hard_exit_sentinel.
 
 Definition is_basic_kind (k : nkind) : bool := match k with KBasic1 | KBasic2 => true | _ => false end.
 
-Definition cstep (s : cstate) (cr : crow) : res cstate :=
+(* one row AS READ (its edges are what _parse_next_row hands to _parse_row / _parse_block) *)
+Definition cstep_read (s : cstate) (cr : crow) : res cstate :=
   let r := cr_row cr in
   match r_type r with
   | THard => foldM (fun s' e => cadd_row_edge s' e sentinel_dst) (r_edges r) s
@@ -767,10 +792,9 @@ Definition cstep (s : cstate) (cr : crow) : res cstate :=
       | Ok (nd, n2) =>
         let k := length (cs_nodes s) in
         let s1 := push_node s nd n2 in
-        let es := match r_edges r with
-                  | [] => []
-                  | e0 :: rest => e0 :: filter (fun e => negb (edge_trivial e)) rest
-                  end in
+        (* before the repair: `if edge != Edge() or i == 0` here; since then on every row when it is read
+           (drop_padding is idempotent) *)
+        let es := drop_padding (r_edges r) in
         match foldM (fun s' e => cadd_row_edge s' e (Some (cn_uuid nd))) es s1 with
         | Err x => Err x
         | Ok s2 => Ok (set_names (add_cgroup s2 (CGRow k [] (rowtype_of (cr_kind cr))) (r_id r)) node_name k)
@@ -778,6 +802,8 @@ Definition cstep (s : cstate) (cr : crow) : res cstate :=
       end
     end
   end.
+
+Definition cstep (s : cstate) (cr : crow) : res cstate := cstep_read s (cread_row cr).
 
 (* ---------------------------------------------------------------- _compile_flow and render *)
 Definition opt_list {X} (o : option X) : list X := match o with Some x => [x] | None => [] end.
@@ -825,6 +851,13 @@ Definition render_node (nd : cnode) : node :=
            (Some (RRandom (map render_cat (rr_cats r)) (render_result (rr_result r))))
   end.
 
+(* SwitchRouter.record_global_uuids (RapidProContainer.update_global_uuids, when the container is validated):
+   `case.arguments[1]` of every has_group case *)
+Definition case_has_group_name (k : ccase) : bool :=
+  negb (str_eqb (ck_type k) has_group_s) || Nat.leb 2 (length (ck_args k)).
+Definition node_groups_named (nd : cnode) : bool :=
+  match cn_body nd with BSwitch _ r => forallb case_has_group_name (sw_cases r) | _ => true end.
+
 (* `validate` = the node-uuid validation of _compile_flow (Flow/NodeIdCheck.v: compile_flow_validation, which
    follows the probed constant compile_checks_node_uuids) *)
 Definition cfinish_with (validate : list str -> option str) (name : str) (s : cstate) : res flow :=
@@ -842,7 +875,8 @@ Definition cfinish_with (validate : list str -> option str) (name : str) (s : cs
         | Ok nds =>
           match validate (map cn_uuid nds) with
           | Some u => Err (EDupNodeUuid u)
-          | None => Ok (mkFlow fu name (map render_node nds))
+          | None => if forallb node_groups_named nds then Ok (mkFlow fu name (map render_node nds))
+                    else Err (ECrash CIndexError)
           end
         end
       end
@@ -850,6 +884,15 @@ Definition cfinish_with (validate : list str -> option str) (name : str) (s : cs
     end
   end.
 
+(* rows as read *)
+Definition crun_read (rows : list crow) : res cstate := foldM cstep_read rows cs0.
+Definition compile_read_with (validate : list str -> option str) (name : str) (rows : list crow) : res flow :=
+  match crun_read rows with
+  | Err x => Err x
+  | Ok s => cfinish_with validate name s
+  end.
+
+(* rows as written in the sheet *)
 Definition crun (rows : list crow) : res cstate := foldM cstep rows cs0.
 
 Definition compile_with (validate : list str -> option str) (name : str) (rows : list crow) : res flow :=
